@@ -462,6 +462,37 @@ func (c *FnCtx) ceCall(st *State, x *ast.CallExpr, env *CEnv, want *SV) Val {
 			return SV{fmt.Sprintf("(forall ((%s (_ BitVec 64))) %s)", bv, implies(rng, body)), SBool, false}
 		}
 		return SV{fmt.Sprintf("(exists ((%s (_ BitVec 64))) %s)", bv, and(rng, body)), SBool, false}
+	case "sortedRange", "allLess":
+		// sortedRange(e, lo, hi): forall i, j: lo <= i < j < hi ==> e[i] < e[j]        (one quantifier, multi-pattern)
+		// allLess(e, lo, hi, f, lo2, hi2): forall i in lo..hi, j in lo2..hi2: e[i] < f[j]
+		i64 := SV{"", S64, true}
+		ev := func(k int) string { return c.mat(c.ce(st, x.Args[k], env, &i64), &i64).(SV).T }
+		e1, ok1 := c.ce(st, x.Args[0], env, nil).(*SliceVal)
+		e2 := e1
+		ok2 := true
+		if name == "allLess" {
+			e2, ok2 = c.ce(st, x.Args[3], env, nil).(*SliceVal)
+		}
+		if !ok1 || !ok2 {
+			c.unsupportedf(token.NoPos, "contract: %s of a non-slice", name)
+			return SV{"true", SBool, false}
+		}
+		qi := fmt.Sprintf("qi!%d", c.nfresh)
+		qj := fmt.Sprintf("qj!%d", c.nfresh+1)
+		c.nfresh += 2
+		a, okA := c.elemAt(e1, qi, "ce").(SV)
+		b, okB := c.elemAt(e2, qj, "ce").(SV)
+		if !okA || !okB {
+			c.unsupportedf(token.NoPos, "contract: %s needs scalar elements", name)
+			return SV{"true", SBool, false}
+		}
+		var rng string
+		if name == "sortedRange" {
+			rng = and(app("bvsle", ev(1), qi), app("bvslt", qi, qj), app("bvslt", qj, ev(2)))
+		} else {
+			rng = and(app("bvsle", ev(1), qi), app("bvslt", qi, ev(2)), app("bvsle", ev(4), qj), app("bvslt", qj, ev(5)))
+		}
+		return SV{fmt.Sprintf("(forall ((%s (_ BitVec 64)) (%s (_ BitVec 64))) (! %s :pattern (%s %s)))", qi, qj, implies(rng, app("bvult", a.T, b.T)), a.T, b.T), SBool, false}
 	case "each_":
 		vn := x.Args[0].(*ast.Ident).Name
 		lo, ok1 := x.Args[1].(*ast.BasicLit)
